@@ -4,7 +4,7 @@
 # patch, the project builds, the existing suite is unchanged (the 4 known walnut failures ignored).
 set -u
 ID=$1; NAME=$2
-SRC=/tmp/mutout2/$NAME; WT=/tmp/mut2/$ID
+SRC=${MUTOUT:-/tmp/mutout2}/$NAME; WT=/tmp/mut2/$ID
 export GOFLAGS=-mod=mod GOPROXY=off GOSUMDB=off GOTOOLCHAIN=local
 cd $WT || exit 2
 git checkout -q -- . ; git clean -fdq
